@@ -309,11 +309,19 @@ func (m *Muxer) retransmitTables(force bool) (int, error) {
 func (m *Muxer) WriteTables() (int, error) {
 	bytesWritten := 0
 
+	// Counters and flags are restored if a table can't be generated, since nothing is written in that case
+	patVersion, pmtVersion, patCC, pmtCC, pmUpdated, pmtUpdated := m.patVersion, m.pmtVersion, m.patCC, m.pmtCC, m.pmUpdated, m.pmtUpdated
+	restore := func() {
+		m.patVersion, m.pmtVersion, m.patCC, m.pmtCC, m.pmUpdated, m.pmtUpdated = patVersion, pmtVersion, patCC, pmtCC, pmUpdated, pmtUpdated
+	}
+
 	if err := m.generatePAT(); err != nil {
+		restore()
 		return bytesWritten, err
 	}
 
 	if err := m.generatePMT(); err != nil {
+		restore()
 		return bytesWritten, err
 	}
 
